@@ -311,6 +311,44 @@ def run(ctx):
             r = impl.call(lambda: q.save(io.StringIO() if kind in ('xbm', 'xpm') else io.BytesIO(), kind=kind, scale=scale))
             if r[0] == 'ok' or r[1] != 'ValueError':
                 failures.append({'input': {'format': kind, 'scale': scale}, 'observed': r[1] if r[0] != 'ok' else 'accepted', 'expected': 'ValueError'})
+    # ---- colours that are equal as Python values but mean different things, rendered one after the other in this process:
+    #      alpha 1 (int: 1/255, almost transparent) and alpha 1.0 (float: opaque) of the same RGB, both orders; True/1
+    q1 = segno.make('1', version='M1')
+
+    def pam_dark_rgba(colour):
+        out = io.BytesIO()
+        q1.save(out, kind='pam', dark=colour, light=None, border=0, scale=1)
+        data = out.getvalue()
+        body = data[data.index(b'ENDHDR\n') + 7:]
+        hdr = data[:data.index(b'ENDHDR\n')].decode('ascii')
+        depth = int([ln.split()[1] for ln in hdr.splitlines() if ln.startswith('DEPTH')][0])
+        px = tuple(body[:depth])          # module (0, 0) of a Micro symbol is a dark finder module
+        return px
+    for rgb, order in (((255, 0, 0), ('float', 'int', 'float')), ((0, 0, 128), ('int', 'float', 'int')), ((9, 8, 7), ('float', 'int'))):
+        for form in order:
+            n += 1
+            colour = rgb + ((1.0,) if form == 'float' else (1,))
+            r = impl.call(lambda: pam_dark_rgba(colour))
+            want_a = 255 if form == 'float' else 1
+            if r[0] != 'ok':
+                failures.append({'input': {'format': 'pam', 'dark': repr(colour), 'history': repr(order)}, 'observed': r[1], 'expected': 'RGBA %r' % (rgb + (want_a,),)})
+            else:
+                px = r[1]
+                got = px if len(px) == 4 else (px + (255,) if len(px) == 3 else px)
+                if tuple(got) != rgb + (want_a,):
+                    failures.append({'input': {'format': 'pam', 'dark': repr(colour), 'history': 'rendered after %r of the same RGB' % (order,)},
+                                     'observed': 'dark pixel %r' % (tuple(got),), 'expected': 'RGBA %r' % (rgb + (want_a,),)})
+            # the PNG of the same colour must not depend on what was rendered before either
+            a = io.BytesIO()
+            r2 = impl.call(lambda: q1.save(a, kind='png', dark=colour, light=None, border=0, scale=1))
+            if r2[0] == 'ok':
+                chunks = {t: d for t, d, _ in png_chunks(a.getvalue())}
+                trns = chunks.get(b'tRNS')
+                alphas = sorted(trns) if trns else []
+                want_alphas = [0, 1] if form == 'int' else [0]
+                if alphas != want_alphas and not (form == 'float' and alphas in ([0], [0, 255])):
+                    failures.append({'input': {'format': 'png', 'dark': repr(colour), 'history': 'rendered after %r of the same RGB' % (order,)},
+                                     'observed': 'tRNS alpha values %r' % alphas, 'expected': 'alpha values %r' % want_alphas})
     uniq, seen = [], set()
     for f in failures:
         k = (f['input'].get('format'), f['observed'][:30])
